@@ -52,7 +52,7 @@ def units(tier):
                                                     'GeneralString', 'BMPString', 'UniversalString')]
     su = space.make_unit('special-strings', tops)
     su.extra['values'] = SPECIAL_STRINGS
-    return [su] + us
+    return [su] + space.special_string_units(SPECIAL_STRINGS) + us
 
 
 def xml_legal(s):
@@ -142,7 +142,7 @@ def check_value(spec, codec, name, term, env, v, numeric, res, indents):
         except Exception as e:
             return ('decode-raised', errclass(e), enc)
         if not absval.eq(term, pv, dec, env, numeric):
-            return ('roundtrip-mismatch', valrepr(dec)[:200], enc)
+            return ('roundtrip-mismatch', valrepr(dec)[:4000], enc)
     res.outcome('ok:' + codec)
     return None
 
@@ -168,7 +168,7 @@ def work(unit):
     for i, (name, term, lab) in enumerate(unit.tops):
         res.count('types')
         res.states.add(hash((unit.tags, unit.ext_implied, term)))
-        values = unit.extra.get('values') or dom(term, unit.env)
+        values = space.values_of(unit, term)
         if not values:
             continue
         res.count('values', len(values))
@@ -184,7 +184,7 @@ def work(unit):
                     continue
                 spec, tname = c
                 for vi, v in enumerate(values):
-                    indents = INDENTS if vi < 6 else (None,)
+                    indents = INDENTS if vi < 6 or unit.extra.get('all_indents') else (None,)
                     r = check_value(spec, codec, tname, term, unit.env, v, numeric, res, indents)
                     if r is not None:
                         kind, detail, enc = r
